@@ -164,6 +164,46 @@ def generate(ctx):
                 yield 'interp1d', {'xp': xp.tolist(), 'fp': fp.tolist(), 'xs': xs, 'kind': kind, 'k': k, 'dyadic': dyadic,
                                    'scalars': (2 if not quick else 1) if (kind == 'int' and r == 0 and n in (2, 3, 5)) else 0,
                                    'aff': [float(rng.integers(-12, 13)) / 4, float(rng.integers(-20, 21)) / 2]}
+    # coordinates in very small / very large units (dyadic scalings keep the model exact), powers of ten,
+    # queries hundreds to a million cells outside, nearly coincident (distinct) neighbouring nodes
+    def aff_pair(): return [float(rng.integers(-12, 13)) / 4, float(rng.integers(-20, 21)) / 2]
+    exps = [-30, -20, -10, 20] if quick else [-30, -25, -20, -15, -10, -5, 5, 10, 15, 20, 25, 30]
+    for e2 in exps:
+        for kind in ('random', 'affine'):
+            n = int(rng.integers(2, 8)); xp = dyadic_nodes(rng, n) * 2.0 ** e2
+            fp = make_data(rng, xp * 2.0 ** -e2, kind); k = 1 + int(rng.integers(0, 3))
+            ctx.count(f'units:nodes scaled by 2^{e2}')
+            yield 'interp1d', {'xp': xp.tolist(), 'fp': fp.tolist(), 'xs': draw_queries(ctx, rng, xp, NQ, True, k), 'kind': kind, 'k': k,
+                               'dyadic': True, 'scalars': 0, 'aff': [aff_pair()[0] * 2.0 ** -e2, aff_pair()[1]]}
+    for e10 in ([-6, -3, 5] if quick else [-9, -6, -3, -2, 2, 3, 5, 8]):
+        n = int(rng.integers(2, 8)); xp = dyadic_nodes(rng, n) * 10.0 ** e10
+        fp = make_data(rng, xp, 'random'); k = 1 + int(rng.integers(0, 3))
+        ctx.count(f'units:nodes scaled by 1e{e10}')
+        yield 'interp1d', {'xp': xp.tolist(), 'fp': fp.tolist(), 'xs': draw_queries(ctx, rng, xp, NQ, False, k), 'kind': 'float', 'k': k,
+                           'dyadic': False, 'scalars': 0, 'aff': [aff_pair()[0] * 10.0 ** -e10, aff_pair()[1]]}
+    for e2 in ([-20, 0] if quick else [-30, -20, -10, 0, 10, 30]):
+        n = int(rng.integers(2, 8)); xp = dyadic_nodes(rng, n) * 2.0 ** e2
+        fp = make_data(rng, xp, 'random'); d0 = xp[1] - xp[0]; dl = xp[-1] - xp[-2]
+        far = [300.0, 4096.0, 1.0e6, float(2 ** 20) + 0.5]
+        xs = [float(xp[0] - m * d0) for m in far] + [float(xp[-1] + m * dl) for m in far] + [float(v) for v in xp]
+        ctx.count('query:far outside (300 .. 1e6 cells)', 2 * len(far))
+        yield 'interp1d', {'xp': xp.tolist(), 'fp': fp.tolist(), 'xs': xs, 'kind': 'random', 'k': 1, 'dyadic': True, 'scalars': 0,
+                           'tight': True, 'aff': [aff_pair()[0] * 2.0 ** -e2, aff_pair()[1]]}
+    for r in range(3 if quick else 10):
+        n = int(rng.integers(3, 7)); e2 = [0, -20, 10][r % 3]
+        base = dyadic_nodes(rng, n); span = base[-1] - base[0]
+        j = int(rng.integers(1, n - 1))                       # an interior node gets a twin at a relative gap of 2^-40
+        gap = 2.0 ** (np.floor(np.log2(span)) - 40)
+        xp = np.sort(np.concatenate([base, [base[j] + gap]])) * 2.0 ** e2
+        assert np.all(np.diff(xp) > 0)
+        fp = make_data(rng, xp, ['random', 'affine', 'int'][r % 3]) if r % 3 != 1 else None
+        al, be = aff_pair(); al *= 2.0 ** -e2
+        if fp is None: fp = al * xp + be
+        mid = xp[j] + (xp[j + 1] - xp[j]) / 2
+        xs = draw_queries(ctx, rng, base * 2.0 ** e2, 8, True, 1, extras=False) + [float(mid)] + [float(v) for v in xp]
+        ctx.count('nodes:nearly coincident neighbours (gap 2^-40 of the span)'); ctx.count('query:inside the tiny cell')
+        yield 'interp1d', {'xp': xp.tolist(), 'fp': fp.tolist(), 'xs': xs, 'kind': 'random', 'k': 1, 'dyadic': False, 'scalars': 0,
+                           'tight': True, 'aff': [al, be]}
     # missing data handed to the safe extrapolation
     for r in range(3 if quick else 12):
         n = int(rng.integers(3, 8)); xp = dyadic_nodes(rng, n); fp = make_data(rng, xp, 'random')
@@ -225,6 +265,13 @@ def generate(ctx):
         if not quick:
             yield 'wrapper_kw', {'P': P.tolist(), 'b': b.tolist(), 'sp': sp.tolist(), 'lead': [],
                                  'seed': int(rng.integers(0, 2 ** 31)), 'exact': True}
+    for e2 in ([-20] if quick else [-30, -20, 20]):         # pressure (levels AND surface pressure) in other units
+        nP = int(rng.integers(3, 6)); K = int(rng.integers(3, 6))
+        P = (np.cumsum(rng.integers(1, 4, size=nP)) * 64).astype(np.float64); top = 2.0 ** np.ceil(np.log2(P[-1]))
+        sp = np.array([[[top / 4, top / 2], [top, 4 * top]]])
+        ctx.count(f'units:wrappers pressure scaled by 2^{e2}')
+        yield 'wrapper_kw', {'P': (P * 2.0 ** e2).tolist(), 'b': uneven_sigma(rng, K).tolist(), 'sp': (sp * 2.0 ** e2).tolist(), 'lead': [],
+                             'seed': int(rng.integers(0, 2 ** 31)), 'exact': True}
     # node lists of length 2 on both sides
     yield 'wrapper_kw', {'P': [128.0, 320.0], 'b': [0.0, 0.375, 1.0], 'sp': [[[256.0, 512.0], [1024.0, 64.0]]], 'lead': [],
                          'seed': int(rng.integers(0, 2 ** 31)), 'exact': True}
@@ -293,6 +340,9 @@ def generate(ctx):
         u = rng.integers(-3, 20, size=shape_xy) / 16.0          # mostly between the levels, some beyond either end
         g = [10.0, 9.75, 1.0, 8.0][r % 4]
         oro = (np.round((lo_ + u * (hi_ - lo_)) / g * 4) / 4)[None]
+        ge = [0, -20, 0, 20, -30, 10][r % 6]; lf = [1.0, 100.0, 2.0 ** -10, 1.0][r % 4]     # geopotential / pressure in other units
+        geo = geo * 2.0 ** ge; g = g * 2.0 ** ge; levels = levels * lf
+        ctx.count(f'surface-pressure:geopotential scaled by 2^{ge}, levels by {lf}')
         ctx.count(f'surface-pressure:leading-axes={lead}')
         yield 'surface_pressure', {'levels': levels.tolist(), 'geo': geo.tolist(), 'oro': oro.tolist(), 'g': g}
     cfgs = [((5, 3, 'gauss', 0.0), (9, 6, 'equiangular_with_poles', 0.0)),          # up-sampling, poles in the target
@@ -337,15 +387,25 @@ def scale_of(xp, fp, xs):
     return (f + 1e-300) * (1.0 + 2.0 * reach / dmin)
 
 
+def scale_tight(xp, fp, xs):
+    """magnitude of the two terms fp[j]*(1-w), fp[j+1]*w actually summed for each query (w from the cell used),
+    independent of the spacing of OTHER cells (used for nearly coincident neighbouring nodes)."""
+    xp = np.asarray(xp); xs = np.asarray(xs); n = len(xp)
+    j = np.clip(np.searchsorted(xp, xs, side='right') - 1, 0, n - 2)
+    w = np.abs((xs - xp[j]) / (xp[j + 1] - xp[j])) if len(xs) else np.zeros(1)
+    f = float(np.nanmax(np.abs(fp))) if np.size(fp) else 0.0
+    return (f + 1e-300) * (1.0 + 2.0 * max(1.0, float(np.max(w))))
+
+
 def chord(xp, fp, j, x):
     return fp[j] + (x - xp[j]) / (xp[j + 1] - xp[j]) * (fp[j + 1] - fp[j])
 
 
-def oracles_1d(ctx, xp, fp, xs, k, vals, tag=''):
+def oracles_1d(ctx, xp, fp, xs, k, vals, tag='', tight=False):
     """The clauses of the property for one node list / data / query set; `vals` maps
     routine name -> implementation output."""
     n = len(xp); xs = np.asarray(xs)
-    s = scale_of(xp, fp, xs)
+    s = scale_tight(xp, fp, xs) if tight else scale_of(xp, fp, xs)
     tol = 2.0 ** -36 * s
     below = xs < xp[0]; above = xs > xp[-1]; inside = ~below & ~above
     ref = np.interp(xs, xp, fp)            # independent reference piecewise-linear interpolant (numpy)
@@ -387,7 +447,8 @@ def r_interp1d(ctx, a):
     jax, jnp, vi, sc, pe = J()
     xp = np.asarray(a['xp'], dtype=np.float64); fp = np.asarray(a['fp'], dtype=np.float64)
     xs = np.asarray(a['xs'], dtype=np.float64); n = len(xp); k = a['k']
-    s = scale_of(xp, fp, xs)
+    tight = bool(a.get('tight'))
+    s = scale_tight(xp, fp, xs) if tight else scale_of(xp, fp, xs)
     jx, jxp, jfp = jnp.asarray(xs), jnp.asarray(xp), jnp.asarray(fp)
     if a['kind'] == 'int':         # integer-typed node and data arrays (as in the repo's own tests)
         jxp = jnp.asarray(xp.astype(np.int64)); jfp = jnp.asarray(fp.astype(np.int64))
@@ -416,12 +477,12 @@ def r_interp1d(ctx, a):
         w = ctx.model.call(4, [n, k], [xp])
         ctx.exact('documented window = padded end nodes', [float(xp[0] - k * (xp[1] - xp[0])), float(xp[-1] + k * (xp[-1] - xp[-2]))],
                   [float(v) for v in w])
-    oracles_1d(ctx, xp, fp, xs, k, vals)
+    oracles_1d(ctx, xp, fp, xs, k, vals, tight=tight)
     # affine exactness (data affine in the coordinate), independent of the data of this case
     al, be = a['aff']
     aff = al * xp + be
     jaff = jnp.asarray(aff); want = al * xs + be
-    sa = scale_of(xp, aff, xs) + abs(al) * float(np.max(np.abs(xs))) + abs(be)
+    sa = (scale_tight(xp, aff, xs) if tight else scale_of(xp, aff, xs)) + abs(al) * float(np.max(np.abs(xs))) + abs(be)
     inside = (xs >= xp[0]) & (xs <= xp[-1])
     inwin = (xs >= xp[0] - k * (xp[1] - xp[0])) & (xs <= xp[-1] + k * (xp[-1] - xp[-2]))
     for name in ('interp', 'dot'):
